@@ -44,6 +44,13 @@ def plan(tier, seed):
     for n in (4, 5, 6):
         for i in range(8):
             t.append(("sets", n, (1000 if q else 12000) // 8, seed * 100 + 10 * n + i))
+    # invalid sets that look like graph-state generators: R = identity (or a permutation), S asymmetric
+    t.append(("graphform", 3, "all", seed))
+    for ch in wp.chunks(list(range(64)), 8):
+        t.append(("graphform", 4, ch, seed))
+    for n in (5, 6):
+        for i in range(4):
+            t.append(("graphform", n, (120 if q else 1500) // 4, seed * 100 + i))
     random.Random(seed).shuffle(t)
     return t
 
@@ -264,6 +271,40 @@ def work(task):
             judge_set(p, gens, n, [confs[i % len(confs)]], fmt=("mat", "str+")[i % 2])
             p.counters["mode " + MODES[i % len(MODES)]] += 1
         p.sample({"n": n, "operators": [to_str(g, n) for g in gens], "mode": MODES[(cnt - 1) % len(MODES)]})
+    elif kind == "graphform":
+        _, n, what, seed = task
+        rnd = random.Random("%s-%s-%s" % (n, what, seed))
+        confs = oconn.configs_for(n)
+
+        def from_S(Srows, perm=None):
+            perm = perm or list(range(n))
+            return [(1 << perm[v], Srows[v], rnd.getrandbits(1)) for v in range(n)]
+        if n == 3:
+            for code in range(1 << 9):                      # every 3x3 Z-part with R = identity (valid and invalid)
+                Srows = [(code >> (3 * v)) & 7 for v in range(3)]
+                for c in confs:
+                    judge_set(p, from_S(Srows), n, [c], fmt=("mat", "str+")[code % 2])
+            p.counters["graph-form sets n=3 (all 512 Z-parts)"] += 512
+        else:
+            M = 1 << (n * (n - 1) // 2)
+            codes = what if n == 4 else [rnd.randrange(M) for _ in range(what)]
+            for code in codes:
+                rows = lcorbit.adj_rows(code, n)
+                edits = [(a, b) for a in range(n) for b in range(n)]
+                if n > 4:
+                    edits = rnd.sample(edits, 6)
+                for (a, b) in edits:
+                    S2 = list(rows)
+                    S2[a] ^= 1 << b                                   # one asymmetric edit (a == b: a Y on the diagonal, still valid)
+                    if rnd.random() < 0.3:
+                        a2, b2 = rnd.randrange(n), rnd.randrange(n)
+                        S2[a2] ^= 1 << b2
+                    perm = list(range(n))
+                    if rnd.random() < 0.2:
+                        rnd.shuffle(perm)
+                    judge_set(p, from_S(S2, perm), n, [rnd.choice(confs)], fmt=("mat", "str+")[(a + b) % 2])
+                    p.counters["graph-form near-miss sets n=%d" % n] += 1
+        p.sample({"n": n, "stratum": "graph-form generators with asymmetric Z-part"})
     elif kind == "grid":
         work_grid(p)
     else:
